@@ -110,9 +110,11 @@ func init() {
 			yamlSrc := fromCM && rng.Intn(2) == 0
 			vals := c02Vals
 			if yamlSrc {
-				// an unquoted YAML scalar is re-typed by the YAML parser (3 -> number, "" -> null): keep values that stay strings
-				vals = []string{"adam", "a-b_c", "x.y", "sgd"}
+				// an unquoted YAML scalar is re-typed by the YAML parser (3 -> number, "" -> null, true -> boolean): the expected
+				// object is therefore the *textual* substitution parsed by the same YAML engine (see cmSrc below)
+				vals = []string{"adam", "a-b_c", "x.y", "sgd", "3", "0.01", "true", "false", "null", "", "-0.5", "1e-5"}
 			}
+			cmSrc := ""
 			np := 1 + rng.Intn(4)
 			perm := rng.Perm(len(c02Names))
 			declared := []string{}
@@ -187,6 +189,7 @@ func init() {
 					src = string(yb)
 				}
 				e.Spec.TrialTemplate.TrialSource = experimentsv1beta1.TrialSource{ConfigMap: &experimentsv1beta1.ConfigMapSource{ConfigMapName: "tpl", ConfigMapNamespace: "ns", TemplatePath: "t.yaml"}}
+				cmSrc = src
 				cl = cl.WithObjects(&corev1.ConfigMap{ObjectMeta: metav1.ObjectMeta{Name: "tpl", Namespace: "ns"}, Data: map[string]string{"t.yaml": src}})
 				tags = append(tags, "configmap-source")
 			} else {
@@ -229,6 +232,20 @@ func init() {
 				md := want["metadata"].(map[string]interface{})
 				md["name"], md["namespace"] = "trial-1", "ns"
 				tree := reflect.DeepEqual(got.Object, want)
+				if yamlSrc {
+					// oracle for YAML sources: substitute in the text, then parse with the YAML engine
+					txt := cmSrc
+					for n, val := range sigma {
+						txt = strings.ReplaceAll(txt, "${trialParameters."+n+"}", val)
+					}
+					if w2, err2 := kutil.ConvertStringToUnstructured(txt); err2 == nil {
+						w2.SetName("trial-1")
+						w2.SetNamespace("ns")
+						tree = reflect.DeepEqual(got.Object, w2.Object)
+					} else {
+						tree = false
+					}
+				}
 				named := got.GetName() == "trial-1" && got.GetNamespace() == "ns"
 				cp := got.DeepCopy()
 				unstructured.RemoveNestedField(cp.Object, "metadata", "name")
